@@ -27,8 +27,10 @@ type config struct {
 	PrecommitMax bool
 	// one parameter change on the trunk, applied after the block at height ChangeAt (0 = none)
 	ChangeAt uint32
-	After    []uint64
-	Batch    int
+	// forks may also start below the change; every branch then applies the same change at the same height
+	ForkBelowChange bool
+	After           []uint64
+	Batch           int
 	// forks may only start from a block of height <= MaxForkHeight (-1: anywhere)
 	MaxForkHeight int
 }
@@ -272,7 +274,7 @@ func (s *search) options(slot int) []choice {
 			if s.cfg.MaxForkHeight >= 0 && int(p.height) > s.cfg.MaxForkHeight {
 				continue
 			}
-			if s.cfg.ChangeAt != 0 && p.height < s.cfg.ChangeAt {
+			if s.cfg.ChangeAt != 0 && p.height < s.cfg.ChangeAt && !s.cfg.ForkBelowChange {
 				continue // forks only above the parameter change: the trunk carries it
 			}
 		}
@@ -386,6 +388,12 @@ func configs(thorough bool) []config {
 		config{Name: "n4-byz3-join5-15slots", Weights: eq4, Byz: []int{3}, Slots: 15, MaxLeaves: 2, MaxSkips: 1, ChangeAt: 2, After: eq5},
 		config{Name: "n4-byz1-reweight-15slots", Weights: eq4, Byz: []int{1}, Slots: 15, MaxLeaves: 2, MaxSkips: 1, ChangeAt: 2, After: []uint64{2, 1, 1, 1}},
 		config{Name: "n5-byz0-leave-15slots", Weights: eq5, Byz: []int{0}, Slots: 15, MaxLeaves: 2, MaxSkips: 0, ChangeAt: 2, After: []uint64{1, 1, 1, 1, 0}},
+		// the same re-weighting on both sides of a fork that starts below it: votes for old-parameter blocks
+		// cast by headers above the change (weights and thresholds must be those of the voted block's height)
+		config{Name: "n4-byz3-reweight3334-forkbelow-12slots", Weights: eq4, Byz: []int{3}, Slots: 12, MaxLeaves: 2, MaxSkips: 1, ChangeAt: 2, After: []uint64{3, 3, 3, 4}, ForkBelowChange: true},
+		config{Name: "w3334-byz1-reweight1111-forkbelow-12slots", Weights: []uint64{3, 3, 3, 4}, Byz: []int{1}, Slots: 12, MaxLeaves: 2, MaxSkips: 1, ChangeAt: 2, After: eq4, ForkBelowChange: true},
+		config{Name: "n4-byz3-join5-forkbelow-12slots", Weights: eq4, Byz: []int{3}, Slots: 12, MaxLeaves: 2, MaxSkips: 1, ChangeAt: 2, After: eq5, ForkBelowChange: true},
+		config{Name: "n4-byz0-reweight4333-forkbelow-12slots", Weights: eq4, Byz: []int{0}, Slots: 12, MaxLeaves: 2, MaxSkips: 1, ChangeAt: 1, After: []uint64{4, 3, 3, 3}, ForkBelowChange: true},
 	)
 	if thorough {
 		for b := 0; b < 4; b++ {
